@@ -39,3 +39,19 @@ def _gen_meshes(case, v):
     # MultiSecGeometry + "meshes": "gen-meshes": build_sections copies the generator parameters span/taper/sweep into
     # every section dictionary, where Geometry applies them again as design variables.
     return case.get("kind") == "genmeshes_group" and v["family"] == "genmeshes/unified_equals_generated"
+
+
+# ---------------------------------------------------------------------------------------------- C13
+@predicate("rotate_x_nonflat_chord")
+def _rotate_x(case, v):
+    # Rotate pre-multiplies the twist rotation by an x-rotation that follows the local dihedral of the reference axis, also at
+    # zero twist: chords that are not flat (camber, built-in twist) are tilted sideways => defaults are not a no-op.
+    t = _tags(v)
+    return case.get("kind") == "default" and v["family"] == "default/mesh_unchanged" and "nonflat_chords" in t and "axis_dihedral" in t
+
+
+@predicate("taper_root_not_at_y0")
+def _taper_y0(case, v):
+    # Taper interpolates the chord ratio on the absolute y coordinate (root assumed at y=0)
+    t = _tags(v)
+    return case.get("kind") == "single" and case.get("dv") == "taper" and "root_off_y0" in t and v["family"].startswith("taper/")
